@@ -28,6 +28,8 @@ class RuleAlias:
     def __init__(self, ctx, mapping):
         self._ctx = ctx
         self._map = mapping
+        self.sites_examined = 0          # scratch: the borrowed function's own bookkeeping is not this property's
+        self.violations = []             # violations of rules that are NOT borrowed (kept so the borrowed code can look at them)
 
     @property
     def prog(self):
@@ -50,13 +52,17 @@ class RuleAlias:
         if rule in self._map:
             self._ctx.ok(self._map[rule], *a, **k)
 
-    def bad(self, rule, *a, **k):
+    def bad(self, rule, key=None, *a, **k):
         if rule in self._map:
-            self._ctx.bad(self._map[rule], *a, **k)
+            self._ctx.bad(self._map[rule], key, *a, **k)
+        else:
+            self.violations.append({"rule": rule, "site": str(key)})
 
-    def check(self, cond, rule, *a, **k):
+    def check(self, cond, rule, key=None, *a, **k):
         if rule in self._map:
-            self._ctx.check(cond, self._map[rule], *a, **k)
+            self._ctx.check(cond, self._map[rule], key, *a, **k)
+        elif not cond:
+            self.violations.append({"rule": rule, "site": str(key)})
 
     def floor(self, rule, *a, **k):
         if rule in self._map:
